@@ -135,9 +135,9 @@ package allocation
 //@ func (*Allocation).RemoveChannelBind
 //@   requires chansWF(a) && a.fiveTuple != nil
 //@   ensures [C01,C02,C07,C08:removed] old(chanNumsUnique(a)) ==> forall i :: 0 <= i && i < len(a.channelBindings) ==> a.channelBindings[i].Number != number
-//@   ensures [C08:result] res == old(exists i :: 0 <= i && i < len(a.channelBindings) && a.channelBindings[i].Number == number)
-//@   ensures [C08:len] len(a.channelBindings) == old(len(a.channelBindings)) - (res ? 1 : 0)
-//@   ensures [C08:kept] !res ==> sameSlice(a.channelBindings, old(a.channelBindings))
+//@   ensures [C01,C02,C08:result] res == old(exists i :: 0 <= i && i < len(a.channelBindings) && a.channelBindings[i].Number == number)
+//@   ensures [C01,C02,C08:len] len(a.channelBindings) == old(len(a.channelBindings)) - (res ? 1 : 0)
+//@   ensures [C01,C02,C08:kept] !res ==> sameSlice(a.channelBindings, old(a.channelBindings))
 //@   ensures base(a.channelBindings) == old(base(a.channelBindings)) || fresh(base(a.channelBindings))
 //@   ensures chansWF(a)
 //@   assigns a.channelBindings, mem(a.channelBindings)
@@ -155,17 +155,17 @@ package allocation
 //@ func (*Allocation).AddChannelBind
 //@   requires allocWF(a) && permTimers(a) && chanTimers(a) && timersDisjoint(a)
 //@   requires chanBind != nil && chanBind.log != nil && chanBind.lifetimeTimer == nil && chanBind.Peer != nil
-//@   requires [C08:valid-number] validChan(int(chanBind.Number))
+//@   requires [C01,C02,C08:valid-number] validChan(int(chanBind.Number))
 //@   requires [C03:authed] authOK && a.userID == authUser
 //@   requires [C01:granted] granted[ipKey(chanBind.Peer)]
 //@   requires [C01:family] famOK(ipOf(chanBind.Peer), int(a.addressFamily))
 //@   ensures [C08:reject-errors] res == nil || res == ErrSamePeerDifferentChannel || res == ErrSameChannelDifferentPeer
 //@   ensures [C08:reject-if] res != nil ==> old(conflicts(a, int(chanBind.Number), chanBind.Peer))
-//@   ensures [C08:accept-only-if] old(chanNumsUnique(a) && chanPeersUnique(a)) && res == nil ==> !old(conflicts(a, int(chanBind.Number), chanBind.Peer))
-//@   ensures [C08:reject-unchanged] res != nil ==> sameSlice(a.channelBindings, old(a.channelBindings)) && (forall i :: 0 <= i && i < len(a.channelBindings) ==> a.channelBindings[i] == old(a.channelBindings[i])) && (forall k :: haskey(a.permissions, k) == old(haskey(a.permissions, k)))
-//@   ensures [C08:nums-unique] old(chanNumsUnique(a)) ==> chanNumsUnique(a)
-//@   ensures [C08:peers-unique] old(chanPeersUnique(a)) ==> chanPeersUnique(a)
-//@   ensures [C08:range] old(chanRange(a)) ==> chanRange(a)
+//@   ensures [C01,C02,C08:accept-only-if] old(chanNumsUnique(a) && chanPeersUnique(a)) && res == nil ==> !old(conflicts(a, int(chanBind.Number), chanBind.Peer))
+//@   ensures [C01,C02,C08:reject-unchanged] res != nil ==> sameSlice(a.channelBindings, old(a.channelBindings)) && (forall i :: 0 <= i && i < len(a.channelBindings) ==> a.channelBindings[i] == old(a.channelBindings[i])) && (forall k :: haskey(a.permissions, k) == old(haskey(a.permissions, k)))
+//@   ensures [C01,C02,C08:nums-unique] old(chanNumsUnique(a)) ==> chanNumsUnique(a)
+//@   ensures [C01,C02,C08:peers-unique] old(chanPeersUnique(a)) ==> chanPeersUnique(a)
+//@   ensures [C01,C02,C08:range] old(chanRange(a)) ==> chanRange(a)
 //@   ensures [C01,C02,C07:chan-timer-new] res == nil && old(forall i :: 0 <= i && i < len(a.channelBindings) ==> a.channelBindings[i].Number != chanBind.Number) ==> len(a.channelBindings) == old(len(a.channelBindings)) + 1 && a.channelBindings[len(a.channelBindings)-1] == chanBind && timerSet(chanBind.lifetimeTimer, channelLifetime)
 //@   ensures [C01,C02,C07:chan-timer-refresh] res == nil && old(chanNumsUnique(a)) ==> forall i :: 0 <= i && i < len(a.channelBindings) && a.channelBindings[i].Number == chanBind.Number ==> timerSet(a.channelBindings[i].lifetimeTimer, channelLifetime)
 //@   ensures [C01,C02,C07:perm-timer] res == nil ==> has(a.permissions, ipKey(chanBind.Peer)) && timerSet(a.permissions[ipKey(chanBind.Peer)].lifetimeTimer, permissionLifetime)
@@ -364,7 +364,7 @@ package allocation
 //@   requires allocsNonNil(m) && forall k :: haskey(m.allocations, k) ==> tcpConnsWF(valat(m.allocations, k))
 //@   requires [C03:authed] authOK && userID == authUser
 //@   ensures [C03,C16:single-use] res != nil ==> exists k :: haskey(m.allocations, k) && valat(m.allocations, k).userID == userID && has(valat(m.allocations, k).tcpConnections, connectionID) && res == valat(m.allocations, k).tcpConnections[connectionID] && !old(atomic(valat(m.allocations, k).tcpConnections[connectionID].isBound)) && atomic(valat(m.allocations, k).tcpConnections[connectionID].isBound)
-//@   ensures [C16:refusal-no-effect] res == nil && (forall k :: haskey(m.allocations, k) && has(valat(m.allocations, k).tcpConnections, connectionID) ==> valat(m.allocations, k).userID != userID) ==> atomicsOf("allocation.tcpConnection.isBound") == old(atomicsOf("allocation.tcpConnection.isBound"))
+//@   ensures [C03,C16:refusal-no-effect] res == nil && (forall k :: haskey(m.allocations, k) && has(valat(m.allocations, k).tcpConnections, connectionID) ==> valat(m.allocations, k).userID != userID) ==> atomicsOf("allocation.tcpConnection.isBound") == old(atomicsOf("allocation.tcpConnection.isBound"))
 //@   assigns atomics("allocation.tcpConnection.isBound"), timers
 //@   loop 0 invariant allocsNonNil(m) && (forall k :: haskey(m.allocations, k) ==> tcpConnsWF(valat(m.allocations, k)))
 
